@@ -35,3 +35,7 @@ def run(rep: Report, repo: Repo, tier: str) -> None:
     # a directory listed by its parent is not skipped afterwards: no `continue` in the walk outside the auto-exclusion block
     with rep.isolated():
         fsrules.rule_recursion_switch(rep, repo, "C14-R9")
+    # "'<sub>/index.rst' for exactly its processed subdirectories": a subdirectory excluded by pattern is not processed, so the
+    # subdirectory match must work (directory patterns need the trailing separator)
+    with rep.isolated():
+        fsrules.rule_match_sites(rep, repo, "C14-R10")
